@@ -693,13 +693,17 @@ func (tic *TermInCommittee) isViewChangeValid(expectedLeaderFromNewView primitiv
 		return errors.Errorf("sender %s is not a committee member", Str(sender.MemberId()))
 	}
 
+	if preparedProof != nil && len(preparedProof.Raw()) > 0 && preparedProof.PreprepareBlockRef().InstanceId() != header.InstanceId() {
+		return errors.Errorf("prepared proof belongs to another instance")
+	}
+
 	if !proofsvalidator.ValidatePreparedProof(tic.State.Height(), vcmView, preparedProof, tic.keyManager, tic.committeeMembers, func(view primitives.View) primitives.MemberId { return tic.calcLeaderMemberId(view) }) {
 		return fmt.Errorf("failed ValidatePreparedProof()")
 	}
 	return nil
 }
 
-func (tic *TermInCommittee) validateViewChangeVotes(targetBlockHeight primitives.BlockHeight, targetView primitives.View, confirmations []*protocol.ViewChangeMessageContent) error {
+func (tic *TermInCommittee) validateViewChangeVotes(targetInstanceId primitives.InstanceId, targetBlockHeight primitives.BlockHeight, targetView primitives.View, confirmations []*protocol.ViewChangeMessageContent) error {
 	senders := make([]primitives.MemberId, len(confirmations))
 	for i, confirmation := range confirmations {
 		senders[i] = confirmation.Sender().MemberId()
@@ -718,6 +722,9 @@ func (tic *TermInCommittee) validateViewChangeVotes(targetBlockHeight primitives
 		if confirmationBlockHeight != targetBlockHeight {
 			return fmt.Errorf("confirmation of memberId %s has block height %d which is different than targetBlockHeight %d ",
 				senderMemberIdStr, confirmationBlockHeight, targetBlockHeight)
+		}
+		if confirmation.SignedHeader().InstanceId() != targetInstanceId {
+			return fmt.Errorf("confirmation of memberId %s belongs to another instance", senderMemberIdStr)
 		}
 		confirmationView := confirmation.SignedHeader().View()
 		if confirmationView != targetView {
@@ -775,12 +782,16 @@ func (tic *TermInCommittee) HandleNewView(nvm *interfaces.NewViewMessage) {
 		return
 	}
 
-	if err := tic.validateViewChangeVotes(nvmHeader.BlockHeight(), nvmHeader.View(), viewChangeConfirmations); err != nil {
+	if err := tic.validateViewChangeVotes(nvmHeader.InstanceId(), nvmHeader.BlockHeight(), nvmHeader.View(), viewChangeConfirmations); err != nil {
 		//this.logger.log({ subject: "Warning", message: `blockHeight:[${blockHeight}], view:[${view}], HandleNewView from "${senderId}", votes is invalid` });
 		tic.logger.Info("LHMSG RECEIVED NEW_VIEW IGNORE - validateViewChangeVotes failed: %s", err)
 		return
 	}
 
+	if ppMessageContent.SignedHeader().InstanceId() != nvmHeader.InstanceId() {
+		tic.logger.Info("LHMSG RECEIVED NEW_VIEW IGNORE - NewView.InstanceId and NewView.Preprepare.InstanceId do not match")
+		return
+	}
 	ppmView := ppMessageContent.SignedHeader().View()
 	if !ppmView.Equal(nvmHeader.View()) {
 		//this.logger.log({ subject: "Warning", message: `blockHeight:[${blockHeight}], view:[${view}], HandleNewView from "${senderId}", view doesn't match PP.view` });
